@@ -91,8 +91,27 @@ def gen(rng, k, dll=None):
         inject.append(dict(t=t, to=0, id=cid, data=data, fd=fd, via=rng.choice(['listener', 'listener', 'notify'])))
     t_stream_end = t
     script = []
-    # the stack may itself be sending while the stream arrives
     big = 100 if dll == 'j1939-22' else 20
+    # directed family: the stack originates a connection-mode transfer and the "peer" answers with CTS frames whose
+    # next-packet / count fields sit on and around the end of the message (re-request of the last packet, one past the
+    # end, two past the end, zero), then falls silent
+    if rng.random() < 0.3:
+        ln = big + rng.randint(0, 30)
+        unit = 60 if dll == 'j1939-22' else 7
+        n = (ln + unit - 1) // unit
+        t0 = 2000
+        script.append(dict(t=t0, s=0, op='send', a=[0, 0xD0, PEER, 6, LOCAL_E, dict(seed=rng.getrandbits(20), len=ln)]))
+        tt = t0 + 3000
+        for _ in range(rng.randint(1, 4)):
+            nxt = rng.choice([n - 1, n, n, n + 1, n + 1, n + 2, 0, 1])
+            cnt = rng.choice([1, 1, 2, 255, 0])
+            if dll == 'j1939-22':
+                inject.append(dict(t=tt, to=0, id=R.ref_can_id(7, 0x4D00 + LOCAL_E, PEER), data=fd_cm(1, rng.choice([0, 0, 0, 1]), 0xFFFFFF, max(nxt, 0), cnt, 0, 0xD000), fd=True, via='listener'))
+            else:
+                inject.append(dict(t=tt, to=0, id=R.ref_can_id(7, 0xEC00 + LOCAL_E, PEER), data=[17, cnt, max(nxt, 0) & 255, 255, 255] + R.ref_pgn3(0xD000), via='listener'))
+            tt += rng.choice([2000, 30000, 400000, 1300000])
+        t_stream_end = max(t_stream_end, tt)
+    # the stack may itself be sending while the stream arrives
     for _ in range(rng.choice([0, 0, 1, 2])):
         ts = rng.randint(1000, max(2000, t_stream_end))
         if rng.random() < 0.5:
